@@ -13,7 +13,7 @@ CHECKS = {
  "C02": ("TLA+ model checking (TLC) of IndexCore + trace validation of real IndexWriter histories (TLC-generated and random) against the TLA+ sequential oracle",
          "TLC checks the IndexCore specification (stamper, delete queue and cursors, workers, registers, commit task, merges, rollback, re-open, prepare/abort, batches) exhaustively for small bounds; TLC-generated histories and seeded random histories are executed on the real IndexWriter and every recorded run is judged by TLC against the sequential oracle; hook-level traces step the IndexCore model itself (ImplTrace); concurrent producers are checked for linearizability (ProducerTrace); the delete queue has its own code-shaped model (DeleteQueueImpl: weak last block, double-checked locking, every interleaving) and TLC-generated operation sequences replayed on the real DeleteQueue (DeleteQueueTrace).",
          "bounded: model MaxOps<=5, traces <=60 operations, 1..8 indexing threads; content read back through a fresh Index::open; TLC and the Json module trusted"),
- "C05": ("TLA+ model checking (GcProto, IndexCore, ReloadProto, WarmProto, LockProto; inductive invariants of ReloadProto and LockProto discharged by Apalache) + trace validation of concurrent reader threads against ReaderTrace.tla + gate-forced schedules from the models",
+ "C05": ("TLA+ model checking (GcProto, IndexCore, ReloadProto, WarmProto, LockProto; inductive invariants of ReloadProto, LockProto and WarmProto discharged by Apalache) + trace validation of concurrent reader threads against ReaderTrace.tla + gate-forced schedules from the models",
          "TLC checks reload against commit/merge/GC/rollback with and without the meta lock (same and second Index instance). Real reader threads reload, search and re-read held searchers while a real writer runs; TLC judges every reload (exactly one commit, monotone) and every re-read (unchanged). The dangerous schedule found by the model (reader parked after atomic_read(meta.json) while the writer commits, merges and collects) is forced with the SimDirectory gate.",
          "overlapping reloads of one IndexReader are exercised by the gated shared-reader schedule and the OnCommitWithDelay runs on RamDirectory; SimDirectory (delete really removes the entry); MmapDirectory two-process variant not built"),
  "C10": ("TLA+ model checking (GcProto, MC_Storage, StorageProto, ManagedProto) + trace validation of every delete / GC / quiescent end of real runs (also with two Index instances) against StorageTrace.tla + gate-forced schedules + crash images recovered then commit+GC",
